@@ -42,8 +42,23 @@ def fill(claim, na):
           'Equality of resumed and uninterrupted numerical results is not decided.',
           'file system crash-consistent per operation (rename/unlink atomic, hdf5_io.save '
           'non-atomic); safe_write=False excluded as documented unsafe', 'C18')
+    claim('C17', 'writer/reader table agreement by branch-sensitive path enumeration of '
+          'save_hdf5/from_hdf5 (super() inlined, format discriminators matched) + state-tuple '
+          'agreement + exact-callee arity check + dispatch-table/memo CFG rules + __new__-object '
+          'typestate',
+          PARTIAL + 'For every class offering HDF5 export (discovered from the class table on '
+          'each run): keys read unconditionally by from_hdf5 are written by save_hdf5 on every '
+          'compatible branch and format; a key saved from self.X is restored into .X; saved '
+          'attributes are restored; __getstate__/__setstate__ agree in arity and order; exactly '
+          'resolved calls in the save/load code pass acceptable arguments; every type tag a saver '
+          'writes has a loader; savers/loaders memorize (sharing, cycles); the pickle-protocol '
+          'fallback stores each __reduce__ element under its own key; None-default attributes are '
+          'not subscripted when saving; methods called on a __new__ object while loading read '
+          'only attributes already assigned. Equality of numerical payloads is not decided.',
+          'trusts python ast, statically computed MRO, h5py/pickle semantics; keys built '
+          'dynamically (loops) are treated as unknown, not as violations', 'C17')
     for pid in ['C01', 'C02', 'C03', 'C04', 'C05', 'C06', 'C07', 'C09', 'C10', 'C11', 'C12',
-                'C13', 'C15', 'C16', 'C17', 'C19']:
+                'C13', 'C15', 'C16', 'C19']:
         na(pid, 'static rule planned in DESIGN.md but not built yet (work in progress); not '
            'claimed until its check exists')
     na('C08', 'every clause quantifies over numerical values (expectation values, overlaps, Born '
